@@ -280,9 +280,12 @@ class Ref:
         return e[3] if e else ""
 
 
+WS_FAMILY = "set/get through a name spelling with surrounding whitespace"
+
+
 def _canonical(raw):
     """a spelling whose look-up name (normalize(raw)) is the name the Property constructor gives it"""
-    return raw not in (" color ",)
+    return not isinstance(raw, str) or raw == raw.strip()
 
 
 def _oracle_step(style, ref, op, outcome, cssnames):
@@ -448,6 +451,9 @@ def run_history(h):
                 if d == "SKIP":
                     oracle_on = False      # literal-name mode: outside the statement; reference no longer tracks
                 elif d:
+                    opname = op[2] if op[0] in ("set", "setp", "si") else op[1] if op[0] in ("rm", "di") else ""
+                    if not _canonical(opname) and not d.startswith(WS_FAMILY):
+                        d = WS_FAMILY + ": " + d
                     fail = (idx, d)
                 else:
                     checked += 1
@@ -529,7 +535,7 @@ def gen_histories(ctx, thorough):
     core = core_ops()
     depth = 4 if thorough else 3
     inits = [(), (("D", "color", "red", 1), ("C", 1), ("D", "COLOR", "blue", 0))]
-    ops_for = core if not thorough else core[:22]
+    ops_for = core if not thorough else core[:20]
     for init in inits[:1 if thorough else 2]:
         for seq_ in itertools.product(ops_for, repeat=depth):
             hs.append({"ro": 0, "probes": PROBES[:6], "init": list(init), "ops": list(seq_)})
@@ -623,36 +629,38 @@ def run(ctx):
     hs, n_exh = gen_histories(ctx, thorough)
     al = alias_histories()
     hs = corpus + al + hs
-    res = ctx.pool_map(run_history, hs, procs=6, chunksize=128)
-    mism, states, steps, checked = [], set(), 0, 0
-    n_todom = 0
-    if binary:
-        n_todom = todom_cases(binary, ctx)
-        out = ctx.run_binary(binary, [history_line(h) for h in hs], shards=6)
-        for h, r, o in zip(hs, res, out):
-            if r[0] != o:
-                a, b = r[0].split("|"), o.split("|")
-                k = next((i for i, (x, y) in enumerate(itertools.zip_longest(a, b)) if x != y), 0)
-                mism.append({"history": h, "step": k, "implementation": (a[k] if k < len(a) else None),
-                             "model": (b[k] if k < len(b) else None)})
-    reported = 0
-    for h, r in zip(hs, res):
-        steps += len(h["ops"])
-        checked += r[2]
-        states.add(r[3])
-        if r[1] is not None and reported < 40:
-            idx, d = r[1]
-            known = ctx.match_known(d + " :: " + sig_text(h, idx))
-            if not known and reported < 3:
-                h = shrink_history(h, _fails)
-                r2 = run_history(h)
-                if r2[1] is not None:
-                    idx, d = r2[1]
-            if ctx.violation(d, describe(h, idx, d), sig_text=sig_text(h, idx)):
-                reported += 1
+    mism, states, steps, checked, reported = [], set(), 0, 0, 0
+    n_todom = todom_cases(binary, ctx) if binary else 0
+    BATCH = 20000
+    for lo in range(0, len(hs), BATCH):
+        part = hs[lo:lo + BATCH]
+        res = ctx.pool_map(run_history, part, procs=6, chunksize=128)
+        if binary:
+            out = ctx.run_binary(binary, [history_line(h) for h in part], shards=6)
+            for h, r, o in zip(part, res, out):
+                if r[0] != o and len(mism) < 50:
+                    a, b = r[0].split("|"), o.split("|")
+                    k = next((i for i, (x, y) in enumerate(itertools.zip_longest(a, b)) if x != y), 0)
+                    mism.append({"history": h, "step": k, "implementation": (a[k] if k < len(a) else None),
+                                 "model": (b[k] if k < len(b) else None)})
+        for h, r in zip(part, res):
+            steps += len(h["ops"])
+            checked += r[2]
+            states.add(r[3])
+            if r[1] is not None and reported < 40:
+                idx, d = r[1]
+                known = ctx.match_known(d + " :: " + sig_text(h, idx))
+                if not known and reported < 3:
+                    h = shrink_history(h, _fails)
+                    r2 = run_history(h)
+                    if r2[1] is not None:
+                        idx, d = r2[1]
+                if ctx.violation(d, describe(h, idx, d), sig_text=sig_text(h, idx)):
+                    reported += 1
+        del res
     if mism:
         ctx.broken("correspondence", "CSSStyleDeclaration vs CssV.StyleDecl.trace_i (every accessor after every step)",
-                   "%d of %d histories differ; first: %s" % (len(mism), len(hs), json.dumps(mism[0])[:1800]))
+                   "%s of %d histories differ; first: %s" % (len(mism) if len(mism) < 50 else ">=50", len(hs), json.dumps(mism[0])[:1800]))
     for f in ctx.findings:
         if f.get("status") == "open":
             r = run_history(f["witness"]["history"])
@@ -690,7 +698,7 @@ def run(ctx):
                 "attribute and cssText assignment, deletion; raiseExceptions on/off; read-only blocks) from parsed "
                 "blocks with duplicates, comments and unknown at-rules; evaluations = operations applied, after each "
                 "of which every accessor (26 per probe name) is compared; non-trivial = distinct final sequences with "
-                ">= 2 items" % (len(al), 4 if thorough else 3, len(core_ops()[:22]) if thorough else len(core_ops()),
+                ">= 2 items" % (len(al), 4 if thorough else 3, len(core_ops()[:20]) if thorough else len(core_ops()),
                                 n_exh),
         "samples": [hs[len(corpus) + len(al) + 7], hs[-1], hs[len(corpus) + 3]],
         "disagreements_checked": len(hs) if binary else 0,
